@@ -43,11 +43,17 @@ type C05Scenario struct {
 	// attribution; one that reports failure is not examined.
 	CancelAt int  `json:"cancel_at,omitempty"`
 	Deadline bool `json:"deadline,omitempty"`
+	// ReadSymlinks: the scan follows symlinks; some layer adds the symlink c05Link to a list file
+	// and the first extractor requires the link path too.
+	ReadSymlinks bool `json:"read_symlinks,omitempty"`
 }
+
+// c05Link is the path of the symlink to a package-list file.
+const c05Link = "etc/alt/list.link"
 
 func (C05) ID() string { return "C05" }
 func (C05) Rule() string {
-	return "layer histories of 1-6 real layers plus 0-3 empty history entries in any position (valid, missing or inconsistent histories) over 1-3 package-list files in the line format 'name version'; per layer each file is untouched, created, rewritten (packages added / removed / version-bumped with identical byte size and identical mtime / kept), deleted by a whiteout of the file or of an ancestor directory, or re-created; in 3 of 4 scenarios every layer carries a unique marker file (distinct diff IDs), otherwise layers may be byte-identical repeats of any earlier one (equal diff IDs, e.g. re-adding what a layer in between removed); distinct created_by per history entry; 1-2 harness extractors with different purl types which may require the same file; real FromV1Image/FromTarball -> real Scanner.ScanContainer (real trace.PopulateLayerDetails re-running the real filesystem.Run on older views); side check: existence and content of the list files in every view against the OCI overlay model (a departure that no catalogued C04 deviation explains is reported as views-not-overlay); oracle = brute-force recomputation of 'earliest layer L with (purl, location) present in every view L..last' by opening and parsing the file in EVERY actual chain-layer view; 1 in 4 scenarios end the scan context inside the k-th Extract call (k in 1..4, main scan or tracing; 1 in 3 of them as an expired deadline) with extractors that honour the context at the start of Extract: a scan that then still reports SUCCEEDED must carry the right attribution; evaluation = one load + one container scan; non-trivial = at least one reported package whose origin is not chain layer 0 or whose file was touched by >= 2 layers; distinct = distinct scenario JSON"
+	return "layer histories of 1-6 real layers plus 0-3 empty history entries in any position (valid, missing or inconsistent histories) over 1-3 package-list files in the line format 'name version'; per layer each file is untouched, created, rewritten (packages added / removed / version-bumped with identical byte size and identical mtime / kept), deleted by a whiteout of the file or of an ancestor directory, or re-created; in 3 of 4 scenarios every layer carries a unique marker file (distinct diff IDs), otherwise layers may be byte-identical repeats of any earlier one (equal diff IDs, e.g. re-adding what a layer in between removed); distinct created_by per history entry; 1-2 harness extractors with different purl types which may require the same file; 1 in 4 scenarios: some layer adds a symlink to a list file, the first extractor requires the link path too and the scan runs with ReadSymlinks; real FromV1Image/FromTarball -> real Scanner.ScanContainer (real trace.PopulateLayerDetails re-running the real filesystem.Run on older views); side check: existence and content of the list files in every view against the OCI overlay model (a departure that no catalogued C04 deviation explains is reported as views-not-overlay); oracle = brute-force recomputation of 'earliest layer L with (purl, location) present in every view L..last' by opening and parsing the file in EVERY actual chain-layer view; 1 in 4 scenarios end the scan context inside the k-th Extract call (k in 1..4, main scan or tracing; 1 in 3 of them as an expired deadline) with extractors that honour the context at the start of Extract: a scan that then still reports SUCCEEDED must carry the right attribution; evaluation = one load + one container scan; non-trivial = at least one reported package whose origin is not chain layer 0 or whose file was touched by >= 2 layers; distinct = distinct scenario JSON"
 }
 
 var c05Files = []string{"var/lib/db/status", "var/lib/db/extra", "var/lib/alt/status", "etc/pkgs"}
@@ -212,6 +218,18 @@ func (C05) Gen(rt *rapid.T, tier string) any {
 		}
 		sc.Extractors = append(sc.Extractors, x)
 	}
+	if rapid.IntRange(0, 3).Draw(rt, "symlinked_list") == 0 {
+		// a list file is also reachable through a symlink that some layer adds
+		sc.ReadSymlinks = true
+		li := rapid.IntRange(0, nl-1).Draw(rt, "link.layer")
+		t := rapid.SampledFrom(files).Draw(rt, "link.target")
+		e := Entry{Kind: "l", Path: c05Link, Perm: 0o777, Target: "/" + t}
+		if len(sc.Image.Layers[li].Entries) > 0 {
+			e.Style = sc.Image.Layers[li].Entries[0].Style
+		}
+		sc.Image.Layers[li].Entries = append(sc.Image.Layers[li].Entries, e)
+		sc.Extractors[0].Files = append(sc.Extractors[0].Files, c05Link)
+	}
 	return sc
 }
 
@@ -331,6 +349,9 @@ func (C05) Run(t *testing.T, scAny any) *sim.Outcome {
 		exts = append(exts, fmt.Sprintf("%s(%s)%v", e.Name, e.PurlType, e.Files))
 	}
 	ctxs := fmt.Sprintf("via=%s extractors=%v %s", sc.Via, exts, sc.Image.String())
+	if sc.ReadSymlinks {
+		ctxs = "ReadSymlinks " + ctxs
+	}
 	if sc.CancelAt > 0 {
 		ctxs = fmt.Sprintf("context ends in Extract call %d (deadline=%v) %s", sc.CancelAt, sc.Deadline, ctxs)
 	}
@@ -409,7 +430,7 @@ func (C05) Run(t *testing.T, scAny any) *sim.Outcome {
 			required[f]++
 		}
 	}
-	res, err := scalibr.New().ScanContainer(ctx, img, &scalibr.ScanConfig{FilesystemExtractors: fsExts})
+	res, err := scalibr.New().ScanContainer(ctx, img, &scalibr.ScanConfig{FilesystemExtractors: fsExts, ReadSymlinks: sc.ReadSymlinks})
 	if sc.CancelAt > 0 && len(calls) >= sc.CancelAt {
 		out.Count("fault_fired_cancel_in_extract", 1)
 		if sc.Deadline {
@@ -472,6 +493,9 @@ func (C05) Run(t *testing.T, scAny any) *sim.Outcome {
 		// the views themselves break the overlay rules there (C04's findings).
 		if L > 0 && !layerWrites(&sc.Image, plan[L].Layer, loc) {
 			feat = "origin-layer-does-not-write-file"
+		}
+		if loc == c05Link {
+			feat = "file-reached-through-symlink"
 		}
 		if ld == nil {
 			out.Violate("no-layer-details", "no-layer-details:"+feat, "%s at %s (extractor %s) has no layer details, expected layer %d; %s", pu, loc, x.Name(), L, ctxs)
